@@ -61,7 +61,7 @@ def alphabet(world, name, tier="thorough"):
     if tier == "quick" and world["name"] in QUICK_SOURCES:
         cfg["sources"] = QUICK_SOURCES[world["name"]]     # operands of the templates come from 3 locations (targets: all)
     loads = _loads(world)
-    cfg["extra"] = loads[:8] + [("copyfrom", op[1], op[2]) for op in loads[:4]]
+    cfg["extra"] = loads[:8] + [("copyfrom", op[1], op[2]) for op in loads[:4]] + [("export",)]
     return cfg
 
 
@@ -327,6 +327,10 @@ def term_corpus(tier):
         terms += [("call", "dbl", (x,), ()), ("call", "pick", (x,), (("k", ("lit", 3)),)), ("call", "pick", (x,), (("k", ("lit", -2.5)),)),
                   ("call", "pick", (("lit", 2),), (("k", x),)), ("call", "hyp", (x, ("lit", -1e-3)), ()), ("call", "hyp", (("lit", 7), x), ())]
     terms += [("call", "total", (("loc", ("s", ("i", "l"))),), ())]
+    # string literals as positional / keyword arguments, keywords in non-alphabetical order
+    for x in args[:6]:
+        terms += [("call", "scale", (x, ("lit", "k")), ()), ("call", "scale", (x,), (("unit", ("lit", "m")),)),
+                  ("call", "kw", (x, ("lit", "a'b")), (("z", ("lit", "mrad")), ("a", x)))]
     # computed keys
     terms += [("dyn", ("s", ("i", "l")), ("loc", ("s", ("i", "i")))), ("dyn", ("s", ("i", "l")), ("bin", "sub", ("loc", ("s", ("i", "i"))), ("lit", 1))),
               ("dyn", ("s", ("i", "l")), ("bin", "mod", ("loc", A), ("lit", 3)))]
